@@ -230,3 +230,124 @@ Proof.
   - rewrite Hec. exact Hle.
 Qed.
 End EventIn.
+
+(* ---------------- relation to the list of builder_mappings_exact ---------------- *)
+
+(* remapping of an event list through an input map: every mapping's original
+   position is looked up with spec_find; no target = dropped; names aside *)
+Fixpoint remap_ops (ms : list mapping) (ops : list op) : list op :=
+  match ops with
+  | [] => []
+  | ONewline :: r => ONewline :: remap_ops ms r
+  | OMap gc si ol oc nm :: r =>
+    match spec_find ms ol oc with
+    | Some m => OMap gc (m_src m) (m_oline m) (m_ocol m) None :: remap_ops ms r
+    | None => remap_ops ms r
+    end
+  end.
+
+Fixpoint strip_names (ops : list op) : list op :=
+  match ops with
+  | [] => []
+  | ONewline :: r => ONewline :: strip_names r
+  | OMap gc si ol oc _ :: r => OMap gc si ol oc None :: strip_names r
+  end.
+
+Lemma remap_ops_app ms a b : remap_ops ms (a ++ b) = remap_ops ms a ++ remap_ops ms b.
+Proof.
+  induction a as [|[|gc si ol oc nm] a IH]; cbn [app remap_ops]; [reflexivity|rewrite IH; reflexivity|].
+  destruct (spec_find ms ol oc); rewrite IH; reflexivity.
+Qed.
+Lemma strip_names_app a b : strip_names (a ++ b) = strip_names a ++ strip_names b.
+Proof. induction a as [|[|gc si ol oc nm] a IH]; cbn [app strip_names]; rewrite ?IH; reflexivity. Qed.
+Lemma remap_newlines ms k : remap_ops ms (repeat ONewline k) = repeat ONewline k.
+Proof. induction k as [|k IH]; cbn [repeat remap_ops]; rewrite ?IH; reflexivity. Qed.
+Lemma strip_newlines k : strip_names (repeat ONewline k) = repeat ONewline k.
+Proof. induction k as [|k IH]; cbn [repeat strip_names]; rewrite ?IH; reflexivity. Qed.
+
+(* the two specification walks agree on everything but names and last position *)
+Definition sim (w w' : sw) : Prop :=
+  w_line w = w_line w' /\ w_col w = w_col w' /\ w_pend w = w_pend w' /\ w_len w = w_len w' /\
+  w_ploc w = w_ploc w' /\ w_plen w = w_plen w' /\ w_pname w = w_pname w'.
+
+Lemma sim_event text ms inames w w' loc name delta :
+  sim w w' ->
+  sim (fst (sp_event text false w loc name delta)) (fst (sp_event_in text ms inames w' loc name delta)) /\
+  strip_names (snd (sp_event_in text ms inames w' loc name delta)) =
+  remap_ops ms (snd (sp_event text false w loc name delta)).
+Proof.
+  intros (E1 & E2 & E3 & E4 & E5 & E6 & E7).
+  unfold sp_event, sp_event_in. rewrite <- E1, <- E2, <- E3, <- E4, <- E5, <- E6, <- E7.
+  destruct ((loc =? w_ploc w) && _).
+  - cbn [fst snd]. split; [|reflexivity]. unfold sim. cbn. repeat split; congruence.
+  - cbn [cover_op]. rewrite breaks_nil.
+    set (lc := adv (w_line w, w_col w) (w_pend w ++ delta)).
+    set (orig := linecol_utf16 text loc).
+    assert (Hif : forall (c : bool), (if c then @nil op else []) = []) by (intros []; reflexivity).
+    rewrite Hif. cbn [app].
+    destruct (spec_find ms (fst orig) (snd orig)) as [m|] eqn:Ef; cbn [fst snd].
+    + split; [unfold sim; cbn; repeat split; reflexivity|].
+      rewrite strip_names_app, remap_ops_app, strip_newlines, remap_newlines. cbn [strip_names remap_ops].
+      rewrite Ef. reflexivity.
+    + split; [unfold sim; cbn; repeat split; reflexivity|].
+      rewrite remap_ops_app, strip_newlines, remap_newlines. cbn [remap_ops]. rewrite Ef, app_nil_r. reflexivity.
+Qed.
+
+Lemma sim_run text ms inames : forall evs w w',
+  sim w w' ->
+  sim (fst (sp_run text false w evs)) (fst (sp_run_in text ms inames w' evs)) /\
+  strip_names (snd (sp_run_in text ms inames w' evs)) = remap_ops ms (snd (sp_run text false w evs)).
+Proof.
+  induction evs as [|[[loc name] delta] evs IH]; intros w w' Hs.
+  - cbn. split; [exact Hs|reflexivity].
+  - cbn [sp_run sp_run_in fst snd].
+    destruct (sim_event text ms inames w w' loc name delta Hs) as (S1 & O1).
+    destruct (IH _ _ S1) as (S2 & O2).
+    split; [exact S2|]. rewrite strip_names_app, remap_ops_app, O1, O2. reflexivity.
+Qed.
+
+(* the positions of the composed chunk are the positions of the chunk of
+   builder_mappings_exact (cover off), remapped through spec_find *)
+Theorem composes_remaps_all : forall text ms inames evs fin,
+  strip_names (fst (fst (builder_in_spec text ms inames evs fin))) =
+  remap_ops ms (builder_spec_ops text false evs fin).
+Proof.
+  intros. unfold builder_in_spec, builder_spec_ops, builder_spec, sp_final. cbn [fst snd].
+  destruct (sim_run text ms inames evs sw0 sw0) as ((E1 & E2 & E3 & _) & O).
+  { unfold sim. repeat split. }
+  rewrite strip_names_app, remap_ops_app, O. cbn [cover_op]. rewrite breaks_nil, strip_newlines, remap_newlines.
+  rewrite <- E1, <- E2, <- E3. reflexivity.
+Qed.
+
+(* the same on decoded mappings *)
+Definition remap_abs (ms : list mapping) (a : abs) : list abs :=
+  match a_src a with
+  | Some (_, l, c) =>
+    match spec_find ms l c with
+    | Some m => [mkAbs (a_gline a) (a_gcol a) (Some (m_src m, m_oline m, m_ocol m)) None]
+    | None => []
+    end
+  | None => []
+  end.
+
+Definition strip_abs (a : abs) : abs := mkAbs (a_gline a) (a_gcol a) (a_src a) None.
+
+Lemma abs_of_remap ms : forall ops l, abs_of (remap_ops ms ops) l = flat_map (remap_abs ms) (abs_of ops l).
+Proof.
+  induction ops as [|[|gc si ol oc nm] r IH]; intro l; cbn [remap_ops abs_of flat_map].
+  - reflexivity.
+  - apply IH.
+  - unfold remap_abs at 1. cbn [a_src a_gline a_gcol]. destruct (spec_find ms ol oc); cbn [abs_of app]; rewrite IH; reflexivity.
+Qed.
+
+Lemma abs_of_strip : forall ops l, abs_of (strip_names ops) l = map strip_abs (abs_of ops l).
+Proof.
+  induction ops as [|[|gc si ol oc nm] r IH]; intro l; cbn [strip_names abs_of map]; rewrite ?IH; reflexivity.
+Qed.
+
+Theorem composes_remaps_abs : forall text ms inames evs fin,
+  map strip_abs (abs_of (fst (fst (builder_in_spec text ms inames evs fin))) 0) =
+  flat_map (remap_abs ms) (abs_of (builder_spec_ops text false evs fin) 0).
+Proof.
+  intros. rewrite <- abs_of_strip, composes_remaps_all. apply abs_of_remap.
+Qed.
